@@ -1,0 +1,27 @@
+//go:build verif
+
+package fd
+
+// Copyright ©2026 The Gonum Authors. All rights reserved.
+// Use of this source code is governed by a BSD-style
+// license that can be found in the LICENSE file.
+
+// Machine-checked contracts for the argument checks of this package (verification
+// hook, build tag verif; this file contains comments only). The contract language and
+// the checker are described in /verif/DESIGN.md.
+//
+// Derivative, Gradient, Jacobian, Hessian, Laplacian evaluate a function value
+// ("OUTSIDE-SUBSET: call through function value f(x + step*pt.Loc)"): the exactness of the
+// formulas on polynomials is not under contract. Only the helpers below are.
+
+// checkFormula panics exactly for a formula without derivative order, without stencil or
+// with a step that is not positive (tested as Step <= 0: a NaN step is accepted).
+//@ func checkFormula props: C18
+//@ valid formula.Derivative != 0 && formula.Stencil != nil && !(formula.Step <= 0)
+//@ panics iff !valid, before-writes
+//@ writes nothing
+
+//@ func usesOrigin props: C18
+//@ writes nothing
+//@ ensures result == exists(k, 0, len(stencil), stencil[k].Loc == 0)
+//@ loop 1: invariant forall(k, 0, it, !(stencil[k].Loc == 0))
